@@ -35,7 +35,7 @@ CHECKS = {
    text='After every successful addition (add_child or xml_* shortcut) in every explored history the multiset of children is checked to be a sub-multiset of some word of the reference language (exact BFS).',
    note='trusts the reference DFAs', ref='7 C07'),
  'C10': dict(cat='exploration', tech='in-place snapshots around raising calls + differential twin without the failed operations (views, verdict, acceptance vector)',
-   text='Every raising call in every explored history is bracketed by snapshots of both views, attributes and value; the history is then replayed without the failed operations and all observables, the status of each later operation and the acceptance vector over the whole child alphabet are compared; refused offers of already attached children (own / another element's) must leave receiver, holder and parent link unchanged.',
+   text='Every raising call in every explored history is bracketed by snapshots of both views, attributes and value; the history is then replayed without the failed operations and all observables, the status of each later operation and the acceptance vector over the whole child alphabet are compared; refused offers of already attached children (own or held by another element) must leave receiver, holder and parent link unchanged.',
    note='library raises only (no injected faults); observables through public API', ref='7 C10'),
  'C11': dict(cat='exploration', tech='differential twin: fresh element given only the survivors (verdict/text, order, acceptance vector)',
    text='Every history with removals whose operations all succeed is compared with a fresh element to which only the surviving children were added in the same relative order.',
